@@ -200,3 +200,17 @@ def catalogue(max_len, min_len=0, *, pandas=True):
             out.append({'k': 'datetime', 'freq': 'YS', 'start': '2000-01-01', 'n': n})
             out.append({'k': 'datetime', 'freq': 'D', 'start': '2001-02-27', 'n': n})
     return out
+
+
+def catalogue_long():
+    """A few longer spans (beyond the exhaustive length bound) for the random phases."""
+    out = []
+    for n in (9, 16):
+        out.append({'k': 'range', 'start': 1990, 'n': n, 'step': 1})
+        out.append({'k': 'range', 'start': -4, 'n': n, 'step': 3})
+        out.append({'k': 'list', 'items': ['p%02d' % i for i in range(n)]})
+        out.append({'k': 'np', 'items': list(range(100, 100 + 2 * n, 2))})
+        out.append({'k': 'period', 'freq': 'Q', 'start': '1999Q3', 'n': n})
+        out.append({'k': 'datetime', 'freq': 'D', 'start': '2001-02-20', 'n': n})
+        out.append({'k': 'pdindex', 'items': list(range(-n // 2, n - n // 2))})
+    return out
